@@ -248,6 +248,39 @@ class Rewriter:
         t = s('R1.RectT', r'\bRect\s*<\s*T\s*>', 'RectT', t)
         t = s('R1.PathT', r'\bPath\s*<\s*T\s*>', 'PathT', t)
         t = s('R1.PathT', r'\bPaths\s*<\s*T\s*>', 'PathsT', t)
+        t = s('R12.itertype', r'\b(?:typename\s+)?(?:Path64|PathD|PathT|Path\s*<\s*\w+\s*>|Paths64|PathsD|PathsT)\s*::\s*(?:const_)?iterator\b', 'size_t', t)
+        t = s('R12.itertype', r'\b(?:typename\s+)?(?:Path64|PathD|PathT|Path\s*<\s*\w+\s*>)\s*::\s*size_type\b', 'size_t', t)
+        return t
+
+    def vectors(self, t, names):
+        """R12/R14: std::vector API on the named variables -> (data,size) struct operations."""
+        s = self.sub
+        for v in names:
+            V = r'(?<![\w.>])' + v
+            t = s('R12.size', V + r'\s*\.\s*size\s*\(\s*\)', v + '.size', t)
+            t = s('R12.empty', V + r'\s*\.\s*empty\s*\(\s*\)', '(' + v + '.size == 0)', t)
+            t = s('R12.begin', V + r'\s*\.\s*c?begin\s*\(\s*\)', '((size_t)0)', t)
+            t = s('R12.end', V + r'\s*\.\s*c?end\s*\(\s*\)', v + '.size', t)
+            t = s('R12.front', V + r'\s*\.\s*front\s*\(\s*\)', v + '.data[0]', t)
+            t = s('R12.back', V + r'\s*\.\s*back\s*\(\s*\)', v + '.data[' + v + '.size - 1]', t)
+            t = s('R12.index', V + r'\s*\[', v + '.data[', t)
+            t = s('R14.reserve', V + r'\s*\.\s*reserve\s*\(', 'VF_RESERVE(' + v + ', ', t)
+            t = s('R14.pop', V + r'\s*\.\s*pop_back\s*\(\s*\)', 'VF_POP(' + v + ')', t)
+            t = s('R14.clear', V + r'\s*\.\s*clear\s*\(\s*\)', 'VF_CLEAR(' + v + ')', t)
+            t = s('R14.clear', V + r'\s*\.\s*resize\s*\(\s*0\s*\)', 'VF_CLEAR(' + v + ')', t)
+            t = s('R14.push', V + r'\s*\.\s*(?:emplace_back|push_back)\s*\(', 'VF_PUSH(' + v + ', ', t)
+        return t
+
+    def iterators(self, t, spec):
+        """R12: iterators lowered to indices.  spec = 'cont:it1,it2;cont2:it3'."""
+        s = self.sub
+        for grp in spec.split(';'):
+            cont, its = grp.split(':')
+            for it in its.split(','):
+                I = r'(?<![\w.>])' + it + r'\b'
+                t = s('R12.iter', r'\*\s*\(\s*' + it + r'\s*([+-])\s*(\w+)\s*\)', cont + '.data[' + it + r' \1 \2]', t)
+                t = s('R12.iter', r'\*\s*' + I, cont + '.data[' + it + ']', t)
+                t = s('R12.iter', I + r'\s*->', cont + '.data[' + it + '].', t)
         return t
 
     def byval(self, t, names):
